@@ -26,6 +26,8 @@ def boot_history(rng, cfg):
             op.update(extra)
         ops.append(op)
         return nb
+    if rng.random() < 0.15:
+        ops.append({'k': 'dup_pvd'})      # a copy of the PVD made BEFORE El Torito: the boot record must still be at 17
     nboot = rng.choice([1, 1, 2, 3, 4, 5, 6])
     if rng.random() < 0.04:
         nboot = 32          # 31 sections: the catalog fills its block exactly (no terminating entry)
@@ -65,6 +67,8 @@ def boot_history(rng, cfg):
     if rng.random() < 0.3:
         first['platform_id'] = rng.choice([0, 1, 2, 0xef])
     ops.append(first)
+    if rng.random() < 0.15:
+        ops.append({'k': 'dup_pvd'})      # ... or after it
     for i in range(1, nboot):
         sec = {'k': 'add_eltorito_section', 'bootfile': '/BOOT%d.;1' % i}
         if rng.random() < 0.4:
@@ -193,6 +197,7 @@ def run(ctx):
         if not k:
             continue
         rp = (rng.choice([k[0], k[0] + 1, len(ops) - 1]),)
+        ops, rp = sysprops.accepted_only(ops, rp)
         sysprops.run_oracle(ctx, 'C11', iter([(label + '+reopen', cfg, ops, sizes)]), oracle, need_reopen=True, max_shrink=1,
                             build_kwargs={'reopen_points': rp})
     for i in range(16 if quick else 200):
